@@ -104,6 +104,18 @@ func runC11(r *Run) {
 					}
 				}
 				sort.Strings(victims)
+				if len(victims) == 0 && keys[k] && exp >= t {
+					// overwriting a key in a full shard evicts one entry first; if nothing else disappeared it was the key itself
+					inShard := 0
+					for old := range keys {
+						if old.Sum()%64 == k.Sum()%64 {
+							inShard++
+						}
+					}
+					if inShard+1 > perShard {
+						victims = []string{fmt.Sprint(uint64(k))}
+					}
+				}
 				keys = after
 				ops = append(ops, fmt.Sprintf("s:%d:%d:%d:%d:%s", k, v, exp, t, strings.Join(victims, ".")))
 				outs = append(outs, "-")
